@@ -38,6 +38,12 @@ def miri(program, lo, hi, timeout=1500):
 
 class C07(Property):
     id = "C07"
+    trusted_base = Property.trusted_base + [
+        "hooks under cfg(cstree_verif): instrumented RwLock / AtomicU32 / UnsafeCell (cstree/src/verif.rs) report the steps of the real "
+        "primitives they wrap; the deterministic scheduler and the trace renderer of harness/src/conc_cases.rs",
+        "Miri (nightly toolchain): happens-before race detector and aliasing model, run on miri/src/main.rs for a fixed range of seeds",
+        "hypotheses of the theorems that stand for third-party code: LockExclusion (parking_lot RwLock), the hb_rmw edge (C11 release sequences)",
+    ]
     design_ref = "DESIGN.md section 5 / C07"
     shards = 16
     theorems_note = ("lock_discipline_orders (any two conflicting accesses made inside critical sections of the location's reader/writer "
